@@ -50,7 +50,10 @@ def _getitem_classifier(key):
       m = _membership(expr, key, table)
       if m:
         return atom if m == 'in' else ('not', atom)
-    if norm(expr) == 'self._declarations[%s].has_default' % key:
+    if not (isinstance(expr, ast.Attribute) and expr.attr == 'has_default'):
+      return None
+    full = lib.expand_locals(cfgm.Path(steps, None), expr)
+    if norm(full) == 'self._declarations[%s].has_default' % key:
       return 'default'
     return None
 
@@ -86,7 +89,8 @@ def r1_getitem(report, repo):
       return None
     if p.end != 'exit':
       return 'value-row: raises although a value exists'
-    got = norm(p.last_return().value)
+    got = norm(lib.expand_locals(p, p.last_return().value,
+                                 before_index=len(p.steps) - 1))
     if got != want:
       return 'precedence-row: returns %s, expected %s' % (got, want)
     return None
@@ -203,6 +207,27 @@ def _asdict_layers(finfo):
                       body[0].value) == v:
             env[body[0].targets[0].value.id] += ['flag']
             continue
+      # defaults laid in by a loop over the declarations
+      if isinstance(st, ast.For) and not st.orelse and last_attr(
+          st.iter) in ('items', None) and norm(st.iter) in (
+              'self._declarations.items()', 'self._declarations'):
+        if isinstance(st.target, ast.Tuple) and len(st.target.elts) == 2:
+          k, d = [dotted(e) for e in st.target.elts]
+        else:
+          k, d = dotted(st.target), 'self._declarations[%s]' % dotted(st.target)
+        inner = [x for x in st.body if not (isinstance(x, ast.Expr) and (
+            isinstance(x.value, ast.Constant) or cfgm.is_log_call(x.value)))]
+        if len(inner) == 1 and isinstance(inner[0], ast.If) and norm(
+            inner[0].test) == d + '.has_default' and not inner[0].orelse and \
+            len(inner[0].body) == 1 and isinstance(
+                inner[0].body[0], ast.Assign) and isinstance(
+                    inner[0].body[0].targets[0], ast.Subscript) and isinstance(
+                        inner[0].body[0].targets[0].value, ast.Name) and \
+            inner[0].body[0].targets[0].value.id in env and dotted(
+                inner[0].body[0].targets[0].slice) == k and norm(
+                    inner[0].body[0].value) == d + '.default_value':
+          env[inner[0].body[0].targets[0].value.id] += ['default']
+          continue
       if isinstance(st, ast.Return):
         result = layers(st.value, env) if st.value is not None else []
         return
